@@ -268,7 +268,8 @@ def _to_float(x, kind):
 
 
 def build_fgg(ag, kind='real', dtype=None, *, rule_order=None, implicit_ids=False, value_perm=None,
-              finite_domains=False, patterned=None, with_interp=True, use_rule_ids=False, fresh_labels=False):
+              finite_domains=False, patterned=None, with_interp=True, use_rule_ids=False, fresh_labels=False,
+              start_last=False, defer_rules=0):
     """Return (fgg, info) for the abstract grammar.  kind selects which weight table is used and
     how it is mapped to floats: real (w), log (ln w), mp (wmp, for the Viterbi semiring), bool.
     info['nodes'][ri] / info['edges'][ri] list the real Node/Edge objects of rule ri (AG order)."""
@@ -296,9 +297,14 @@ def build_fgg(ag, kind='real', dtype=None, *, rule_order=None, implicit_ids=Fals
         nl = _Fresh(lambda n: NodeLabel(n), ag['nls'])
         el = _Fresh(lambda n: EdgeLabel(n, [NodeLabel(x) for x in ag['els'][n]['type']], is_terminal=ag['els'][n]['t'],
                                         is_nonterminal=not ag['els'][n]['t']), ag['els'])
-    g = FGG(el[ag['start']]) if with_interp else HRG(el[ag['start']])
+    # start_last: a HISTORY in which the start symbol is declared last -- the grammar object is created around another
+    # nonterminal, every other label is registered first, and the start symbol is set when everything else is in place
+    other = [n for n in ag['elorder'] if not ag['els'][n]['t'] and n != ag['start']]
+    start_last = start_last and bool(other) and not fresh_labels
+    first = other[-1] if start_last else ag['start']
+    g = FGG(el[first]) if with_interp else HRG(el[first])
     if not fresh_labels:
-        for n in ag['elorder']:
+        for n in ([x for x in ag['elorder'] if x != ag['start']] + [ag['start']] if start_last else ag['elorder']):
             g.add_edge_label(el[n])
     else:
         used = {e['lab'] for r in ag['rules'] for e in r['edges']} | {r['lhs'] for r in ag['rules']} | {ag['start']}
@@ -307,7 +313,11 @@ def build_fgg(ag, kind='real', dtype=None, *, rule_order=None, implicit_ids=Fals
                 g.add_edge_label(el[n])
     info = {'nodes': {}, 'edges': {}, 'rules': {}, 'el': el, 'nl': nl}
     order = rule_order if rule_order is not None else list(range(len(ag['rules'])))
-    for ri in order:
+    # defer_rules = k: the last k rules (in `order`) are NOT added now; info['add_deferred']() adds them later, so that
+    # queries can be made on the same object before and after (histories: query, add_rule, query)
+    deferred = order[len(order) - defer_rules:] if defer_rules else []
+
+    def add_rule_ix(ri):
         r = ag['rules'][ri]
         rhs = Graph()
         nodes = []
@@ -331,6 +341,10 @@ def build_fgg(ag, kind='real', dtype=None, *, rule_order=None, implicit_ids=Fals
         rule = HRGRule(el[r['lhs']], rhs)
         g.add_rule(rule)
         info['nodes'][ri], info['edges'][ri], info['rules'][ri] = nodes, edges, rule
+    for ri in order:
+        if ri not in deferred:
+            add_rule_ix(ri)
+    info['add_deferred'] = lambda: [add_rule_ix(ri) for ri in deferred]
     if with_interp:
         for n, size in ag['nls'].items():
             if finite_domains:
@@ -351,6 +365,8 @@ def build_fgg(ag, kind='real', dtype=None, *, rule_order=None, implicit_ids=Fals
             if patterned and t in patterned:
                 ten = patterned[t](ten)
             g.add_factor(el[t], FiniteFactor(doms, ten))
+    if start_last:
+        g.start = el[ag['start']]
     return g, info
 
 
@@ -466,6 +482,50 @@ def gen_passthrough(rng):
     w = {t: [rng.choice(PRIMES[:4]) for _ in range(nls[els[t]['type'][0]])] for t in ('a', 'b') if t in els}
     wmp = {t: [rng.randint(-3, 3) for _ in range(nls[els[t]['type'][0]])] for t in ('a', 'b') if t in els}
     return {'nls': nls, 'els': els, 'elorder': elorder, 'start': start, 'rules': rules, 'w': w, 'wmp': wmp}
+
+
+def gen_sparse_rule(rng):
+    """Non-recursive grammars in which the einsum of a rule yields a SPARSELY PATTERNED tensor (identity-like factors held
+    as diagonal PatternedTensors, all their nodes external) that is then multiplied by the domain size of internal nodes
+    attached to no edge.  Returns the grammar with its `pat` entry (see patternise / pattern_hooks)."""
+    n, m = rng.choice([2, 3]), rng.choice([2, 3])
+    nls = {'T': n, 'U': m}
+    els = {'S': {'t': False, 'type': rng.choice([[], ['T', 'T']])}, 'X': {'t': False, 'type': ['T', 'T']},
+           'eq': {'t': True, 'type': ['T', 'T']}, 'g': {'t': True, 'type': ['T']}}
+    rules = []
+    for _ in range(rng.randint(1, 2)):
+        extra = [rng.choice('TU') for _ in range(rng.randint(1, 2))]        # edge-less internal nodes
+        nodes = ['T', 'T'] + extra
+        perm = list(range(len(nodes)))
+        rng.shuffle(perm)
+        nd = [None] * len(nodes)
+        for old, new_ in enumerate(perm):
+            nd[new_] = nodes[old]
+        a_, b_ = perm[0] + 1, perm[1] + 1
+        edges = [{'lab': 'eq', 'att': rng.choice([[a_, b_], [b_, a_]])}]
+        if rng.random() < 0.3:
+            edges.append({'lab': 'eq', 'att': [a_, b_]})
+        rules.append({'lhs': 'X', 'nodes': nd, 'edges': edges, 'ext': rng.choice([[a_, b_], [b_, a_]])})
+    if els['S']['type']:
+        extra = [rng.choice('TU')] if rng.random() < 0.6 else []
+        rules.append({'lhs': 'S', 'nodes': ['T', 'T'] + extra, 'edges': [{'lab': 'X', 'att': rng.choice([[1, 2], [2, 1]])}], 'ext': [1, 2]})
+        if rng.random() < 0.5:
+            rules.append({'lhs': 'S', 'nodes': ['T', 'T', 'U'], 'edges': [{'lab': 'eq', 'att': [1, 2]}], 'ext': [1, 2]})
+    else:
+        rules.append({'lhs': 'S', 'nodes': ['T', 'T'] + ([rng.choice('TU')] if rng.random() < 0.5 else []),
+                      'edges': [{'lab': 'X', 'att': [1, 2]}, {'lab': 'g', 'att': [rng.choice([1, 2])]}], 'ext': []})
+    used = {e['lab'] for r in rules for e in r['edges']}
+    if 'g' not in used:
+        del els['g']
+    w = {'eq': [PRIMES[(i + 1) % 4] if i == j else 0 for i in range(n) for j in range(n)]}
+    wmp = {'eq': [rng.randint(-3, 3) if i == j else NINF for i in range(n) for j in range(n)]}
+    if 'g' in els:
+        w['g'] = [rng.choice([1, 2, 3]) for _ in range(n)]
+        wmp['g'] = [rng.randint(-2, 2) for _ in range(n)]
+    rng.shuffle(rules)
+    elorder = list(els)
+    rng.shuffle(elorder)
+    return {'nls': nls, 'els': els, 'elorder': elorder, 'start': 'S', 'rules': rules, 'w': w, 'wmp': wmp, 'pat': {'eq': ['diag', 0, 1]}}
 
 
 def build_incremental(ag, on_step, with_start_first=True, detour_rng=None):
